@@ -189,21 +189,6 @@ theorem val_str_open (V : Variant) (hV : FixedParser V) (d : Bytes) (isRoot : Bo
     refine ⟨_, hend, k, k2, by simp; omega, hr', ?_⟩
     have : p - 1 + r.length + k - 1 + ([] : Bytes).length + 1 = p - 1 + r.length + k := by simp; omega
     rw [this]; exact drop_app' hd2 k k2
-  have e10 : ∀ k, (if ((10 : UInt8) == 59 || (10 : UInt8) == 10 || (10 : UInt8) == 125 || (V.f12 && (10 : UInt8) == 0)) = true then
-      (match (if ((10 : UInt8) == 0) = true then Except.ok (p - 1 + r.length + k) else unread (p - 1 + r.length + k)) with
-        | .error e => Except.error e
-        | .ok p' => if ((10 : UInt8) == 125 && !isRoot) = true then
-              (if V.f10 = true then Except.ok (putStr n s kids, p') else
-                match unread p' with | .error e => Except.error e | .ok p'' => Except.ok (putStr n s kids, p''))
-            else entryEnd V d isRoot (putStr n s kids) p')
-      else Except.error ParseErr.prematureEof : Except ParseErr (List PNode × Nat)) =
-      (match unread (p - 1 + r.length + k) with
-        | .error e => Except.error e
-        | .ok p' => entryEnd V d isRoot (putStr n s kids) p') := by
-    intro k
-    simp only [show ((10 : UInt8) == 59) = false by decide, show ((10 : UInt8) == 10) = true by decide,
-      Bool.false_or, Bool.true_or, if_true, show ((10 : UInt8) == 0) = false by decide,
-      show ((10 : UInt8) == 125) = false by decide, Bool.false_and, Bool.false_eq_true, if_false]
   rcases hcl with ⟨rest, rfl, hroot⟩ | rfl
   · subst hroot
     rcases wsAt_care d _ W 125 rest hW (.inl ⟨by decide, by decide, by decide⟩) hd2 with ⟨_, hw⟩ | ⟨k, k1, k2, hw, hnl, hr'⟩
